@@ -474,6 +474,10 @@ pub fn replay_parsed(p: &PProblem, solution: &Value) -> Result<Report, String> {
         rep.cur_ctx.clear();
     }
 
+    // ---- relations across tours (C01)
+    check_relations_have_tours(p, solution, &mut rep);
+    check_relation_vehicles(p, solution, &mut rep);
+
     // ---- shared resources (C01)
     for (rid, used) in resource_use.iter() {
         if let Some(cap) = p.resources.get(rid) {
